@@ -41,7 +41,10 @@ type Input struct {
 	// ReadKind: what QueryFirst runs through the handle: "" Count | noop_update UpdateColumns of an
 	// empty map (sends nothing). AfterRead: how the write handle is derived from the used handle:
 	// "" the handle itself | session Session(&Session{}) | with_context WithContext(ctx)
-	ReadKind  string `json:"read_kind,omitempty"`
+	// Wrap: begin = the chain becomes a handle (Session) and the finisher runs on handle.Begin(),
+	// which is rolled back afterwards
+	Wrap     string `json:"wrap,omitempty"`
+	ReadKind string `json:"read_kind,omitempty"`
 	AfterRead string `json:"after_read,omitempty"`
 	// Target: how the rows' table / model value reach the finisher.
 	//  "" (model): Model(&T{ID:pk}) + finisher, Delete(&T{ID:pk})
@@ -148,6 +151,17 @@ type T2S struct {
 
 func (T2S) TableName() string { return "tss" }
 
+// TCK: the plain table through a model whose primary key is (id, age)
+type TCK struct {
+	ID   int64 `gorm:"primaryKey;autoIncrement:false"`
+	Age  int64 `gorm:"primaryKey;autoIncrement:false"`
+	Name string
+	Nick *string
+	Mark int64
+}
+
+func (TCK) TableName() string { return "ts" }
+
 func dumpAssoc(db *gorm.DB) string {
 	var sb strings.Builder
 	for _, q := range []string{"SELECT id, name, owner_id, IFNULL(deleted_at,'') FROM a_toys ORDER BY id", "SELECT id, name, mark, '' FROM aos ORDER BY id",
@@ -178,7 +192,7 @@ type env struct {
 
 func dump(db *gorm.DB, table string) string {
 	var sb strings.Builder
-	rows, err := db.Raw("SELECT id, age, name, mark, " + map[bool]string{true: "deleted_at", false: "0"}[table == "tss"] + " FROM " + table + " ORDER BY id").Rows()
+	rows, err := db.Raw("SELECT id, age, name, mark, " + map[bool]string{true: "deleted_at", false: "0"}[table != "ts"] + " FROM " + table + " ORDER BY id").Rows()
 	if err != nil {
 		return "ERR " + err.Error()
 	}
@@ -206,6 +220,9 @@ func (e *env) run(in Input) Obs {
 	}
 	db, rec := e.dbs[key], e.rec[key]
 	table := whr.Table()
+	if in.Target == "softzero" {
+		table = "tsz"
+	}
 	byID := map[int]whr.Atom{}
 	for _, a := range in.Atoms {
 		byID[a.ID] = a
@@ -277,6 +294,13 @@ func (e *env) run(in Input) Obs {
 			tx = tx.Scopes(func(d *gorm.DB) *gorm.DB { return d })
 		case "empty_slice":
 			tx = tx.Where([]int64{})
+		case "where_used_group":
+			// a grouped condition whose sub-builder carries no condition of its own but was already
+			// used for a read
+			sub := db.Model(model0(in))
+			var n int64
+			sub.Count(&n)
+			tx = tx.Where(sub)
 		case "empty_array":
 			tx = tx.Where([0]int64{})
 		case "not_empty_array":
@@ -338,8 +362,16 @@ func (e *env) run(in Input) Obs {
 		}
 		return &whr.T{ID: in.PK}
 	}
-	rec.Reset()
 	var res *gorm.DB
+	dumpDB := db
+	if in.Wrap == "begin" {
+		tx = tx.Session(&gorm.Session{}).Begin()
+		// (single connection: the state is read through the transaction, which is rolled back
+		// before run returns)
+		dumpDB = tx.Session(&gorm.Session{NewDB: true})
+		defer tx.Rollback()
+	}
+	rec.Reset()
 	if in.Target != "" {
 		res = runTarget(tx, in, table)
 	} else {
@@ -443,9 +475,9 @@ func (e *env) run(in Input) Obs {
 		}
 	}
 	if in.Target == "assoc_select" {
-		o.Changed = dumpAssoc(db) != before
+		o.Changed = dumpAssoc(dumpDB) != before
 	} else {
-		o.Changed = dump(db, table) != before
+		o.Changed = dump(dumpDB, table) != before
 	}
 	return o
 }
@@ -480,6 +512,24 @@ func runTarget(tx *gorm.DB, in Input, table string) *gorm.DB {
 			return tx.Model(&whr.TS{ID: in.PK}).Delete(&whr.TS{})
 		}
 		return tx.Model(&whr.T{ID: in.PK}).Delete(&whr.T{})
+	case "softzero":
+		// a soft-delete column with a zero value of its own (live rows hold it instead of NULL)
+		m := &whr.TSZ{ID: in.PK}
+		if in.Finisher == "delete" {
+			return tx.Delete(m)
+		}
+		return upd(tx.Model(m))
+	case "composite":
+		// a model of the plain table whose key is (id, age): the row named has age 0, a legitimate
+		// value of a key part
+		m := &TCK{ID: in.PK}
+		if in.Finisher == "delete" {
+			return tx.Delete(m)
+		}
+		if in.Finisher == "delete_model_dest" {
+			return tx.Model(m).Delete(&TCK{})
+		}
+		return upd(tx.Model(m))
 	case "soft2":
 		m := &T2S{ID: in.PK}
 		if in.Finisher == "delete" {
@@ -561,6 +611,11 @@ func sig(in Input, o Obs) string {
 			return "empty-where-clause-object"
 		}
 	}
+	// a used handle of the soft-delete model as grouped condition: its automatic filter is counted
+	// as a condition (known finding); only the soft-delete model, only the scoped chain
+	if in.Soft && !hasUnscoped(in.Steps) && hasDeco(in.Steps, "where_used_group") && !o.Missing {
+		return "used-handle-as-group"
+	}
 	return ""
 }
 
@@ -598,7 +653,7 @@ func term(in Input, o Obs) string {
 	for _, s := range in.Steps {
 		if s.Call != nil {
 			calls = append(calls, *s.Call)
-		} else if s.Deco == "empty_slice" || s.Deco == "empty_array" {
+		} else if s.Deco == "empty_slice" || s.Deco == "empty_array" || s.Deco == "where_used_group" {
 			calls = append(calls, whr.Call{Kind: "where", Unit: whr.Unit{Form: "empty_map"}})
 		} else if s.Deco == "not_empty_array" {
 			calls = append(calls, whr.Call{Kind: "not", Unit: whr.Unit{Form: "empty_map"}})
@@ -669,6 +724,8 @@ var targets = []struct {
 	{"hooked", []string{"update", "updates_map", "update_column", "update_columns", "delete"}, []int64{0, 3}},
 	{"model_slice_dest", []string{"delete"}, []int64{0, 3}},
 	{"soft2", []string{"update", "updates_map", "update_column", "update_columns", "delete"}, []int64{0, 3}},
+	{"softzero", []string{"update", "updates_map", "update_column", "update_columns", "delete"}, []int64{0, 3}},
+	{"composite", []string{"update", "updates_map", "update_column", "delete", "delete_model_dest"}, []int64{0, 3}},
 }
 
 func main() {
@@ -677,7 +734,7 @@ func main() {
 	for _, k := range []string{"off", "config"} {
 		db, rec, _, err := gdb.Open(gdb.Opt{Config: &gorm.Config{AllowGlobalUpdate: k == "config", Logger: logger.Discard}})
 		lib.Must(err)
-		lib.Must(db.AutoMigrate(&whr.T{}, &whr.TS{}, &AO{}, &AOS{}, &AToy{}, &AKid{}, &ATag{}, &T2S{}))
+		lib.Must(db.AutoMigrate(&whr.T{}, &whr.TS{}, &AO{}, &AOS{}, &AToy{}, &AKid{}, &ATag{}, &T2S{}, &whr.TSZ{}))
 		e.dbs[k], e.rec[k] = db, rec
 	}
 	out := lib.NewOut(a.Out, "C09")
@@ -820,7 +877,10 @@ func main() {
 					if soft && tg.name == "table_only" {
 						continue // no schema, hence no soft delete
 					}
-					if !soft && tg.name == "soft2" {
+					if soft && tg.name == "composite" {
+						continue // (a model of the plain table)
+					}
+					if !soft && (tg.name == "soft2" || tg.name == "softzero") {
 						continue // (the two-column model is a soft-delete model)
 					}
 					for _, al := range allows {
@@ -840,6 +900,15 @@ func main() {
 		for _, soft := range []bool{false, true} {
 			for _, extra := range [][]Step{nil, {{Deco: "unscoped"}}, {emptyCall("where", "empty_map")}} {
 				add("known-shape", Input{Soft: soft, Allow: "off", Finisher: f, Steps: append([]Step{{Deco: "clauses_empty_where"}}, extra...)})
+			}
+		}
+	}
+	// a grouped condition whose sub-builder was already used for a read (second known shape on the
+	// soft-delete model: the read's automatic filter travels into the group as if it were a condition)
+	for _, f := range []string{"update", "updates_map", "update_columns", "delete"} {
+		for _, soft := range []bool{false, true} {
+			for _, extra := range [][]Step{nil, {{Deco: "order"}}, {emptyCall("where", "empty_map")}} {
+				add("known-shape", Input{Soft: soft, Allow: "off", Finisher: f, Steps: append([]Step{{Deco: "where_used_group"}}, extra...)})
 			}
 		}
 	}
@@ -927,6 +996,9 @@ func main() {
 		}
 		if in.Finisher == "delete" && in.Target == "" && !in.QueryFirst && r.Bool() {
 			in.InlineLast = true // takes effect when the last step is a Where call
+		}
+		if !in.QueryFirst && in.Target == "" && r.Chance(1, 6) {
+			in.Wrap = "begin"
 		}
 		if softcol && hasDeco(in.Steps, "select") {
 			in.Finisher = "update" // (Select("mark") leaves the soft-delete column nothing to set)
